@@ -118,7 +118,7 @@ pub fn panel() -> Vec<Value> {
 pub fn odd_names() -> Vec<String> {
     let mut v: Vec<String> = vec![
         "a", "b", "", " ", "'", "\"", "\\", "/", "~", "~0", "~1", "0", "1", "a'b", "a\"b", "'a'", "\"a\"", "a b", "\n", "\t", "\r",
-        "a/b", "a~b", "\\n", "\\\\", "a\\", "'", "''", "*", "$", "@", "[0]", "a.b", "-1", "01",
+        "a/b", "a~b", "\\n", "\\\\", "a\\", "'", "''", "*", "$", "@", "[0]", "a.b", "-1", "01", "a  b", "  ", "a\\/b", "\\/", "a\\b", "\\\\/",
     ]
     .into_iter()
     .map(String::from)
@@ -148,6 +148,13 @@ pub fn names_universe(pairs: bool) -> Vec<Value> {
         let mut m3 = Map::new();
         m3.insert(n.clone(), json!([1, {"a": 2}]));
         out.push(Value::Object(m3));
+    }
+    for (a, b) in [("a b", "a  b"), (" ", "  "), ("a/b", "a\\/b"), ("/", "\\/"), ("a", "\"a\""), ("a", "'a'"), ("a\\b", "a\\\\b"), ("\\", "\\\\"), ("0", "00"), ("a", "A")] {
+        let mut m = Map::new();
+        m.insert(a.to_string(), json!(1));
+        m.insert(b.to_string(), json!([2]));
+        out.push(Value::Object(m.clone()));
+        out.push(json!([Value::Object(m), {"zz": 3}]));
     }
     if pairs {
         for a in &names {
